@@ -52,9 +52,12 @@ InvOf(t) == Term("inv", 0, NoS, <<>>, <<t>>)
 DInvOf(t) == Term("dinv", 0, NoS, <<>>, <<t>>)
 RotTOf(t) == Term("rotT", 0, NoS, <<>>, <<t>>)
 
-\* the term with every object identity erased (structural comparison)
+\* the term with every object identity erased and rotation angles taken modulo a full turn
+\* (structural comparison)
 RECURSIVE StripIds(_)
-StripIds(t) == [t EXCEPT !.id = 0, !.ch = [i \in 1..Len(t.ch) |-> StripIds(t.ch[i])]]
+StripIds(t) == [t EXCEPT !.id = 0, !.ch = TLCEval([i \in 1..Len(t.ch) |-> StripIds(t.ch[i])]),
+                         !.p = IF t.k = "rot" THEN TLCEval([i \in 1..Len(t.p) |-> IF i % 2 = 1 THEN t.p[i] % 4 ELSE t.p[i]])
+                               ELSE t.p]
 
 BlockKinds == {"brow", "bdiag", "bcol"}
 LazyInverseKinds == {"inv", "dinv", "rotT"}   \* AbstractLazyInverseOperator subclasses
@@ -64,6 +67,8 @@ TransposeKinds == {"T", "RT", "rotT"}         \* TransposeOperator subclasses
 (* Angles.  2a = q * pi/2 + n * phi with cos(phi) = 3/5, sin(phi) = 4/5, so *)
 (* cos 2a, sin 2a are rational and the sign of every angle matters.  An    *)
 (* angle array is <<q1, n1, ..., qL, nL>>: L = 1 is a scalar angle         *)
+(* (q, n) is also an integer linear form over two generators (pi/4 and     *)
+(* phi/2): the harness instantiates the generators with arbitrary reals.   *)
 (* (broadcast), L = m one angle per element of the Stokes leaves.          *)
 
 \* (3+4i)^n as <<re, im>>, n >= 0
@@ -85,11 +90,11 @@ AngleAt(p, i, m) == IF NAngles(p) = 1 THEN <<p[1], p[2]>> ELSE <<p[2 * i - 1], p
 \* element-wise combination  sa * a + sb * b  of two angle arrays (broadcast scalar/vector)
 AngleLin(sa, a, sb, b) ==
   LET L == Max2(NAngles(a), NAngles(b))
-  IN [i \in 1..(2 * L) |->
+  IN TLCEval([i \in 1..(2 * L) |->
         LET e == (i + 1) \div 2
             x == AngleAt(a, e, L)
             y == AngleAt(b, e, L)
-        IN IF i % 2 = 1 THEN (sa * x[1] + sb * y[1]) % 4 ELSE sa * x[2] + sb * y[2]]
+        IN IF i % 2 = 1 THEN sa * x[1] + sb * y[1] ELSE sa * x[2] + sb * y[2]])
 
 -----------------------------------------------------------------------------
 (* structures *)
@@ -105,12 +110,12 @@ MovePerm(nd, src, dst) ==
   LET s == NormAxis(src, nd)
       d == NormAxis(dst, nd)
       rest == SelectSeq([i \in 1..nd |-> i - 1], LAMBDA x : x # s)
-  IN [k \in 1..nd |-> IF k - 1 = d THEN s ELSE IF k - 1 < d THEN rest[k] ELSE rest[k - 1]]
-MovedShape(sh, src, dst) == [k \in 1..Len(sh) |-> sh[MovePerm(Len(sh), src, dst)[k] + 1]]
+  IN TLCEval([k \in 1..nd |-> IF k - 1 = d THEN s ELSE IF k - 1 < d THEN rest[k] ELSE rest[k - 1]])
+MovedShape(sh, src, dst) == TLCEval([k \in 1..Len(sh) |-> sh[MovePerm(Len(sh), src, dst)[k] + 1]])
 
 ReshapeTarget(sh, target) ==
   LET known == ProdSeq(SelectSeq(target, LAMBDA x : x # -1))
-  IN [k \in 1..Len(target) |-> IF target[k] = -1 THEN ProdSeq(sh) \div known ELSE target[k]]
+  IN TLCEval([k \in 1..Len(target) |-> IF target[k] = -1 THEN ProdSeq(sh) \div known ELSE target[k]])
 
 RavelShape(sh, first, last) ==
   LET f == NormAxis(first, Len(sh))
@@ -123,7 +128,7 @@ PopCount(bits) == SumSeq(bits)
 \* substitute the i-th structure for the leaf Leaf(<<i>>, "op") of a container tree
 RECURSIVE Subst(_, _)
 Subst(tree, ss) == IF tree.k = "leaf" THEN ss[tree.sh[1]]
-                   ELSE [tree EXCEPT !.ch = [i \in 1..Len(tree.ch) |-> Subst(tree.ch[i], ss)]]
+                   ELSE [tree EXCEPT !.ch = TLCEval([i \in 1..Len(tree.ch) |-> Subst(tree.ch[i], ss)])]
 
 RECURSIVE MapLeafShapes(_, _, _)
 \* every leaf l of s replaced by Leaf(shape, l.dt) where shape = table[l.sh]; mode selects the map
@@ -135,7 +140,7 @@ ShapeMap(mode, sh, p) ==
     [] mode = "ravel" -> RavelShape(sh, p[1], p[2])
 MapLeafShapes(s, mode, p) ==
   IF s.k = "leaf" THEN Leaf(ShapeMap(mode, s.sh, p), s.dt)
-  ELSE [s EXCEPT !.ch = [i \in 1..Len(s.ch) |-> MapLeafShapes(s.ch[i], mode, p)]]
+  ELSE [s EXCEPT !.ch = TLCEval([i \in 1..Len(s.ch) |-> MapLeafShapes(s.ch[i], mode, p)])]
 
 RECURSIVE InS(_)
 RECURSIVE OutS(_)
@@ -257,22 +262,22 @@ IsIdT(t) == t.k = "id"
 -----------------------------------------------------------------------------
 (* transpose(), as each class constructs it *)
 RECURSIVE Transpose(_)
-ReverseSeq(s) == [i \in 1..Len(s) |-> s[Len(s) + 1 - i]]
+ReverseSeq(s) == TLCEval([i \in 1..Len(s) |-> s[Len(s) + 1 - i]])
 Transpose(t) ==
   CASE t.k \in SymmetricKinds -> t
     [] t.k = "dense" ->
          \* same class, subscripts rewritten: acts as the transposed matrix on the output structure
          LET r == t.p[1] c == t.p[2] IN
          Term("dense", 0, OutS(t),
-              <<c, r>> \o [x \in 1..(r * c) |-> t.p[2 + ((x - 1) % r) * c + ((x - 1) \div r) + 1]], <<>>)
+              TLCEval(<<c, r>> \o [x \in 1..(r * c) |-> t.p[2 + ((x - 1) % r) * c + ((x - 1) \div r) + 1]]), <<>>)
     [] t.k = "mvax" -> Term("mvax", 0, OutS(t), <<t.p[2], t.p[1]>>, <<>>)
     [] t.k \in {"reshape", "ravel"} -> RTOf(t)
     [] t.k = "rot" -> RotTOf(t)
     [] t.k \in TransposeKinds -> t.ch[1]
-    [] t.k = "comp" -> Comp(ReverseSeq([i \in 1..Len(t.ch) |-> Transpose(t.ch[i])]))
-    [] t.k = "add" -> AddT([i \in 1..Len(t.ch) |-> Transpose(t.ch[i])])
-    [] t.k = "brow" -> Term("bcol", 0, t.s, <<>>, [i \in 1..Len(t.ch) |-> Transpose(t.ch[i])])
-    [] t.k = "bcol" -> Term("brow", 0, t.s, <<>>, [i \in 1..Len(t.ch) |-> Transpose(t.ch[i])])
-    [] t.k = "bdiag" -> Term("bdiag", 0, t.s, <<>>, [i \in 1..Len(t.ch) |-> Transpose(t.ch[i])])
+    [] t.k = "comp" -> Comp(ReverseSeq(TLCEval([i \in 1..Len(t.ch) |-> Transpose(t.ch[i])])))
+    [] t.k = "add" -> AddT(TLCEval([i \in 1..Len(t.ch) |-> Transpose(t.ch[i])]))
+    [] t.k = "brow" -> Term("bcol", 0, t.s, <<>>, TLCEval([i \in 1..Len(t.ch) |-> Transpose(t.ch[i])]))
+    [] t.k = "bcol" -> Term("brow", 0, t.s, <<>>, TLCEval([i \in 1..Len(t.ch) |-> Transpose(t.ch[i])]))
+    [] t.k = "bdiag" -> Term("bdiag", 0, t.s, <<>>, TLCEval([i \in 1..Len(t.ch) |-> Transpose(t.ch[i])]))
     [] OTHER -> TOf(t)     \* bdiagb, index, pack, pol, inv: jax.linear_transpose
 =============================================================================
